@@ -1,5 +1,5 @@
 import McpModel.Base.Proto
-import McpModel.Conn.Model
+import McpModel.Conn.Render
 /-!
 Driver for E1: replays the schedule recorded from the real `jsonrpc2.Connection` on the model, one
 atomic section per record, and compares the complete observable state after every step
@@ -8,21 +8,6 @@ The monitors for C01–C05 are evaluated on the implementation's observations (s
 -/
 namespace Conn
 open Proto
-
-def natList (l : List Nat) : String := ",".intercalate (l.map toString)
-
-def insertSorted (x : Nat) : List Nat → List Nat
-  | [] => [x]
-  | y :: t => if x ≤ y then x :: y :: t else y :: insertSorted x t
-def sortNat (l : List Nat) : List Nat := l.foldr insertSorted []
-
-def insertSortedS (x : String) : List String → List String
-  | [] => [x]
-  | y :: t => if x ≤ y then x :: y :: t else y :: insertSortedS x t
-def sortStr (l : List String) : List String := l.foldr insertSortedS []
-
-def whoStr : Who → String
-  | .call n => s!"c{n}" | .unotif k => s!"u{k}" | .cnotif n => s!"x{n}" | .resp r => s!"r{r}"
 
 def parseWho (t : String) : Option Who :=
   let num := (t.drop 1).toString.toNat?
@@ -37,66 +22,6 @@ def parseReq (t : String) : Option Nat :=
   if t.front = 'r' then (t.drop 1).toString.toNat? else none
 def parseCallNo (t : String) : Option Nat :=
   if t.front = 'c' then (t.drop 1).toString.toNat? else none
-
-def notifParked (w : Who) (nf : Notif) : List String :=
-  match nf.pc with
-  | .n1 => [s!"N1:{whoStr w}"] | .w1 => [s!"W1:{whoStr w}"] | .wr => [s!"WR:{whoStr w}"]
-  | .w2 _ => [s!"W2:{whoStr w}"] | .n2 _ => [s!"N2:{whoStr w}"] | .fin _ => []
-
-def parked (s : St) : List String :=
-  let rd := match s.reader with
-    | .start => ["START"] | .read => ["RD"] | .rr _ _ => ["RR"] | .rx => ["RX"] | _ => []
-  let cs := (s.calls.zipIdx 1).flatMap fun (c, n) =>
-    match c.pc with
-    | .c1 => [s!"C1:c{n}"] | .w1 => [s!"W1:c{n}"] | .wr => [s!"WR:c{n}"] | .w2 _ => [s!"W2:c{n}"]
-    | .r _ => [s!"R:c{n}"] | .rc => [s!"R:c{n}"] | _ => []
-  let us := (s.unotifs.zipIdx 0).flatMap fun (nf, k) => notifParked (.unotif k) nf
-  let xs := s.cnotifs.flatMap fun nf => notifParked (.cnotif (nf.cancelFor.getD 0)) nf
-  let rs := (s.cores.zipIdx 0).flatMap fun (q, r) =>
-    match q.pc with
-    | .a1 => [s!"A1:r{r}"] | .a2 => [s!"A2:r{r}"] | .running => [s!"H:r{r}"] | .p1 => [s!"P1:r{r}"]
-    | .w1 => [s!"W1:r{r}"] | .wr => [s!"WR:r{r}"] | .w2 _ => [s!"W2:r{r}"] | .p2 => [s!"P2:r{r}"]
-    | _ => []
-  let d := if s.disp = .d1 then ["D1"] else []
-  let ks := s.cancels.map fun id => s!"K1:{id}"
-  let cl := List.replicate s.closeCl1 "CL1" ++ List.replicate s.closeWt "WT:0" ++ List.replicate s.waitWt "WT:1"
-  sortStr (rd ++ cs ++ us ++ xs ++ rs ++ d ++ ks ++ cl)
-
-def errStr : Err → String
-  | .clientClosing | .serverClosing => "closed"
-  | .read => "read" | .broken => "broken" | .rejected => "rejected" | .ctx => "ctx"
-
-def resStr : Res → String
-  | .resp p => s!"ok{p}"
-  | .err e => errStr e
-
-def nresStr : Option Err → String
-  | none => "ok"
-  | some e => errStr e
-
-def finished (s : St) : List String :=
-  let cs := (s.calls.zipIdx 1).filterMap fun (c, n) =>
-    match c.pc, c.result with
-    | .fin, some r => some s!"c{n}:{resStr r}"
-    | _, _ => none
-  let us := (s.unotifs.zipIdx 0).filterMap fun (nf, k) =>
-    match nf.pc with | .fin r => some s!"u{k}:{nresStr r}" | _ => none
-  -- the detached cancel notifications' results are discarded by `call()` and not observable
-  sortStr (cs ++ us) ++ [s!"close:{s.closeFin}", s!"wait:{s.waitFin.length}"]
-
-def cancelledSet (s : St) : List String :=
-  (s.metas.zipIdx 0).filterMap fun (q, r) =>
-    match q.seen, q.cancelled with
-    | true, some .read => some s!"r{r}:r"
-    | true, some .write => some s!"r{r}:w"
-    | true, some _ => some s!"r{r}:c"
-    | _, _ => none
-
-def b (x : Bool) : String := if x then "1" else "0"
-
-def observe (s : St) : String :=
-  if s.panicked then "panic" else
-  s!"S={b s.closing}{b s.reading}{b s.readErr}{b s.writeErr}{b s.closerUsed}{b s.done} oc={natList (sortNat s.outCalls)} on={s.outNotifs} in={s.incoming} by={natList (sortNat (s.byID.map (·.1)))} q={natList s.queue} hr={b s.handlerRunning} tc={s.transportCloses} od={s.onDone} P={",".intercalate (parked s)} X={",".intercalate (cancelledSet s)} F={",".intercalate (finished s)}"
 
 def parseLabel (toks : List String) : Option Label :=
   match toks with
@@ -137,39 +62,57 @@ def parseLabel (toks : List String) : Option Label :=
   | ["W2", w] => (parseWho w).map .w2
   | _ => none
 
-/-- Every process has reached its terminal pc and the connection is done. -/
-def allFinished (s : St) : Bool :=
-  s.done && !s.panicked && parked s == [] &&
-  s.calls.all (fun c => c.pc == .fin) &&
-  s.unotifs.all (fun n => match n.pc with | .fin _ => true | _ => false) &&
-  s.cnotifs.all (fun p => match p.pc with | .fin _ => true | _ => false) &&
-  s.closeCl1 == 0 && s.closeWaiting == 0 && s.closeWt == 0 && s.waitWaiting == 0 && s.waitWt == 0
-
-/-! ## Monitors: C01–C05 as predicates on what the IMPLEMENTATION did
-
-The monitor sees only the labels (ground truth: what the harness fed in and which goroutine it
-released) and the implementation's observations; it never consults the model's state. -/
-
-structure Obs where
-  closing : Bool := false
-  reading : Bool := false
-  readErr : Bool := false
-  writeErr : Bool := false
-  closerUsed : Bool := false
-  done : Bool := false
-  oc : List String := []
-  on : Nat := 0
-  inc : Nat := 0
-  by_ : List String := []
-  q : List String := []
-  hr : Bool := false
-  tc : Nat := 0
-  od : Nat := 0
-  parkedL : List String := []
-  x : List String := []
-  f : List String := []
+/-! ## parsing the implementation's observation (string layer; trusted, self-checked at run time) -/
 
 def splitList (v : String) : List String := (v.splitOn ",").filter (· ≠ "")
+
+def parseNats (v : String) : Option (List Nat) := (splitList v).mapM (·.toNat?)
+
+def parsePTok (t : String) : Option PTok :=
+  match t.splitOn ":" with
+  | ["START"] => some .start | ["RD"] => some .rd | ["RR"] => some .rr | ["RX"] => some .rx
+  | ["D1"] => some .d1 | ["CL1"] => some .cl1
+  | ["WT", "0"] => some (.wt false) | ["WT", "1"] => some (.wt true)
+  | ["K1", id] => id.toNat?.map .k1
+  | ["C1", c] => (parseCallNo c).map .c1
+  | ["R", c] => (parseCallNo c).map .r
+  | ["N1", w] => (parseWho w).map .n1 | ["N2", w] => (parseWho w).map .n2
+  | ["W1", w] => (parseWho w).map .w1 | ["WR", w] => (parseWho w).map .wr | ["W2", w] => (parseWho w).map .w2
+  | ["A1", r] => (parseReq r).map .a1 | ["A2", r] => (parseReq r).map .a2 | ["H", r] => (parseReq r).map .h
+  | ["P1", r] => (parseReq r).map .p1 | ["P2", r] => (parseReq r).map .p2
+  | _ => none
+
+def parseRTok (r : String) : RTok :=
+  if r == "ok" then .okPlain
+  else if r.startsWith "ok" then
+    match (r.drop 2).toString.toNat? with
+    | some p => .ok p
+    | none => .bad r
+  else if r == "closed" then .closed else if r == "read" then .read else if r == "broken" then .broken
+  else if r == "rejected" then .rejected else if r == "ctx" then .ctx else if r == "panic" then .panic
+  else .other r
+
+def parseXTok (t : String) : Option (Nat × XCause) :=
+  match t.splitOn ":" with
+  | [w, c] => do
+    let r ← parseReq w
+    let c ← match c with | "r" => some XCause.read | "w" => some .write | "c" => some .other | _ => none
+    pure (r, c)
+  | _ => none
+
+/-- `F=` tokens: finished calls / notifications, then `close:<n>`, `wait:<n>`. -/
+def parseFins (ts : List String) : Option (List FTok × Nat × Nat) :=
+  ts.foldlM (init := ([], 0, 0)) fun (acc : List FTok × Nat × Nat) t =>
+    match t.splitOn ":" with
+    | w :: rest@(_ :: _) =>
+      let r := ":".intercalate rest
+      if w == "close" then r.toNat?.map fun n => (acc.1, n, acc.2.2)
+      else if w == "wait" then r.toNat?.map fun n => (acc.1, acc.2.1, n)
+      else match parseWho w with
+        | some (.call n) => some (acc.1 ++ [.call n (parseRTok r)], acc.2)
+        | some (.unotif k) => some (acc.1 ++ [.unotif k (parseRTok r)], acc.2)
+        | _ => none
+    | _ => none
 
 def parseObs (impl : String) : Option Obs := do
   let kv := (impl.splitOn " ").filterMap fun t =>
@@ -180,237 +123,71 @@ def parseObs (impl : String) : Option Obs := do
   let sbits := (get "S").toList
   if sbits.length ≠ 6 then none
   let bit := fun i => sbits[i]! == '1'
+  let oc ← parseNats (get "oc")
+  let by_ ← parseNats (get "by")
+  let q ← parseNats (get "q")
+  let parked ← (splitList (get "P")).mapM parsePTok
+  let x ← (splitList (get "X")).mapM parseXTok
+  let (fins, closeFin, waitFin) ← parseFins (splitList (get "F"))
   pure { closing := bit 0, reading := bit 1, readErr := bit 2, writeErr := bit 3, closerUsed := bit 4, done := bit 5,
-         oc := splitList (get "oc"), on := (get "on").toNat?.getD 0, inc := (get "in").toNat?.getD 0,
-         by_ := splitList (get "by"), q := splitList (get "q"), hr := get "hr" == "1",
+         oc := oc, on := (get "on").toNat?.getD 0, inc := (get "in").toNat?.getD 0,
+         by_ := by_, q := q, hr := get "hr" == "1",
          tc := (get "tc").toNat?.getD 0, od := (get "od").toNat?.getD 0,
-         parkedL := splitList (get "P"), x := splitList (get "X"), f := splitList (get "F") }
+         parked := parked, x := x, fins := fins, closeFin := closeFin, waitFin := waitFin }
 
-structure MReq where
-  id : Option Nat := none       -- wire id (calls)
-  isCancel : Bool := false
-  isNotif : Bool := true
-  a2AfterShutdown : Bool := false
-  started : Bool := false
-  asyncd : Bool := false
-  p2done : Bool := false
-  p1count : Nat := 0
-  okWrites : Nat := 0
-  w1count : Nat := 0
-  peerCancelled : Bool := false  -- a K1 for its id ran while it was indexed
-  dup : Bool := false            -- arrived while its id was indexed (as observed at its A1)
-deriving Inhabited
+/-! ## the clauses as text -/
 
-structure Mon where
-  prev : Obs := {}
-  sent : List (Nat × Nat) := []      -- (call id, payload) of responses fed to the reader
-  reqs : List MReq := []
-  brokenSeen : Bool := false         -- some transport Write really failed
-  rxSeen : Bool := false
-  idx : List (Nat × Nat) := []       -- monitor's view of the id index: wire id ↦ request, from A1/P1 labels
-  startedLate : List Nat := []       -- calls started when the connection was already done
-  ncalls : Nat := 0
-
-def fin? (f : List String) (who : String) : Option String :=
-  f.findSome? fun e => match e.splitOn ":" with
-    | [w, r] => if w == who then some r else none
-    | _ => none
-
-def modR (m : Mon) (r : Nat) (f : MReq → MReq) : Mon := { m with reqs := m.reqs.modify r f }
-
-/-- Update the monitor with label `toks` and the implementation's observation after it; return the
-first violated clause. -/
-def monStep (m : Mon) (toks : List String) (o : Obs) : Mon × Option String :=
-  let p := m.prev
-  -- bookkeeping from the label (ground truth)
-  let m := match toks with
-    | ["ecall"] => { m with ncalls := m.ncalls + 1, startedLate := if p.done then m.startedLate ++ [m.ncalls + 1] else m.startedLate }
-    | ["read", "resp", id, pl] => { m with sent := m.sent ++ [(id.toNat?.getD 0, pl.toNat?.getD 0)] }
-    | ["read", "call", id] => { m with reqs := m.reqs ++ [{ id := id.toNat?, isNotif := false }] }
-    | ["read", "notif"] => { m with reqs := m.reqs ++ [{}] }
-    | ["read", "cancel", _] => { m with reqs := m.reqs ++ [{ isCancel := true }] }
-    | ["read", "eof"] => m
-    | ["RX"] => { m with rxSeen := true }
-    | ["wret", w, out] =>
-      let m := if out == "broken" then { m with brokenSeen := true } else m
-      match parseReq w with
-      | some r => if out == "ok" then modR m r fun q => { q with okWrites := q.okWrites + 1 } else m
-      | none => m
-    | ["A1", r] =>
-      match parseReq r with
-      | some r =>
-        match m.reqs[r]? with
-        | some q =>
-          match q.id with
-          | some id =>
-            if (m.idx.lookup id).isSome then modR m r fun q => { q with dup := true }
-            else { m with idx := m.idx ++ [(id, r)] }
-          | none => m
-        | none => m
-      | none => m
-    | ["A2", r] =>
-      match parseReq r with
-      | some r => if p.closing || p.readErr || p.writeErr then modR m r fun q => { q with a2AfterShutdown := true } else m
-      | none => m
-    | ["P1", r] =>
-      match parseReq r with
-      | some r =>
-        let m := modR m r fun q => { q with p1count := q.p1count + 1 }
-        { m with idx := m.idx.filter fun e => e.2 ≠ r }
-      | none => m
-    | ["P2", r] => match parseReq r with
-      | some r => modR m r fun q => { q with p2done := true }
-      | none => m
-    | ["W1", w] => match parseReq w with
-      | some r => modR m r fun q => { q with w1count := q.w1count + 1 }
-      | none => m
-    | ["hasync", r] => match parseReq r with
-      | some r => modR m r fun q => { q with asyncd := true }
-      | none => m
-    | ["K1", id] =>
-      match id.toNat? with
-      | some id => match m.idx.lookup id with
-        | some r => modR m r fun q => { q with peerCancelled := true }
-        | none => m
-      | none => m
-    | _ => m
-  -- ───── checks on the implementation's observation
-  let viol : Option String :=
-    -- C01: results are final, own, intact
-    (p.f.findSome? fun e =>
-      match e.splitOn ":" with
-      | [w, r] =>
-        if (parseCallNo w).isSome then
-          match fin? o.f w with
-          | some r' => if r' == r then none else some s!"C01: call {w} completed twice (result changed from {r} to {r'})"
-          | none => some s!"C01: completed call {w} lost its result"
-        else none
-      | _ => none)
-    <|> (o.f.findSome? fun e =>
-      match e.splitOn ":" with
-      | [w, r] =>
-        if (parseCallNo w).isSome && r.startsWith "ok" then
-          match (w.drop 1).toString.toNat?, (r.drop 2).toString.toNat? with
-          | some n, some pl => if m.sent.contains (n, pl) then none
-                               else some s!"C01: call {w} completed with payload {pl} that was never sent for its id"
-          | _, _ => some s!"C01: unparsable result {e}"
-        else none
-      | _ => none)
-    <|> (o.f.findSome? fun e =>
-      match e.splitOn ":" with
-      | [w, r] => if (parseCallNo w).isSome && r == "panic" then some s!"C01: call {w} panicked (retire called twice / completed twice)" else none
-      | _ => none)
-    <|> (if o.done then
-          (List.range m.ncalls).findSome? fun k =>
-            let w := s!"c{k + 1}"
-            if (fin? o.f w).isNone && !(o.parkedL.any fun lbl => lbl.endsWith (":" ++ w)) then
-              some s!"C01: call {w} is still blocked in Await although the connection has terminated (done closed)"
-            else none
-        else none)
-    <|> (m.startedLate.findSome? fun n =>
-      match fin? o.f s!"c{n}" with
-      | some r => if r == "closed" then none else some s!"C01: call c{n} started after termination ended with {r}, not with a closed-connection error"
-      | none => none)
-    -- C02: never two responses for one request, never a response for a notification
-    <|> ((m.reqs.zipIdx 0).findSome? fun (q, r) =>
-      if q.okWrites > 1 || q.p1count > 1 then some s!"C02: request r{r} answered more than once"
-      else if (q.isNotif || q.isCancel) && q.w1count > 0 then some s!"C02: notification r{r} received a response"
-      else none)
-    -- C03: dispatch order
-    <|> (o.parkedL.findSome? fun lbl =>
-      if lbl.startsWith "H:r" && !p.parkedL.contains lbl then
-        match (lbl.drop 3).toString.toNat? with
-        | some j =>
-          match m.reqs[j]? with
-          | some qj =>
-            if qj.started then none else
-            (m.reqs.zipIdx 0).findSome? fun (qi, i) =>
-              if i < j && qi.started && !qi.asyncd && !qi.p2done then
-                some s!"C03: handler of r{j} started before the synchronous handler of earlier r{i} finished"
-              else if i > j && qi.started then
-                some s!"C03: handler of later r{i} was started before earlier r{j}"
-              else none
-          | none => none
-        | none => none
-      else none)
-    -- C04: only the matching request is cancelled
-    <|> (o.x.findSome? fun e =>
-      if p.x.contains e then none else
-      match e.splitOn ":" with
-      | [w, cause] =>
-        match parseReq w with
-        | some r =>
-          match m.reqs[r]? with
-          | some q =>
-            if cause == "r" then (if m.rxSeen then none else some s!"C04: r{r} cancelled with a read error although the reader is alive")
-            else if cause == "w" then
-              (if m.brokenSeen then none
-               else some s!"C05: handler context of r{r} cancelled as 'server closing' although no transport write ever failed (graceful Close must let running handlers finish)")
-            else if q.peerCancelled || o.parkedL.contains s!"P2:r{r}" || q.p2done then none
-            else some s!"C04: r{r} cancelled although no cancellation for its id was processed and it has not finished"
-          | none => none
-        | none => none
-      | _ => none)
-    <|> (match toks with
-      | ["K1", id] =>
-        match id.toNat? with
-        | some id =>
-          (m.reqs.zipIdx 0).findSome? fun (q, r) =>
-            -- the request indexed under this id when K1 ran must now be cancelled (if its ctx is observable)
-            if q.peerCancelled && q.id == some id && !q.p2done && (p.x ++ o.x).all (fun e => !e.startsWith s!"r{r}:")
-               && (p.parkedL.contains s!"H:r{r}" || p.parkedL.contains s!"A2:r{r}" || p.q.contains (toString r))
-            then some s!"C04: Cancel({id}) did not cancel the handler context of r{r}"
-            else none
-        | none => none
-      | ["ectx", c] =>
-        -- the caller must be on its way out without any help from the peer
-        if p.parkedL.contains s!"WR:{c}" then none
-        else if o.parkedL.contains s!"R:{c}" || (fin? o.f c).isSome then none
-        else some s!"C04: cancelling the context of {c} did not make the call return"
-      | _ => none)
-    -- C05: transport closed once, only when idle; onDone once; nothing dispatched that arrived after shutdown began
-    <|> (if o.tc > 1 then some "C05: transport closed more than once" else none)
-    <|> (if o.od > 1 then some "C05: onDone ran more than once" else none)
-    <|> (if o.tc == 1 && p.tc == 0 && !(o.oc.isEmpty && o.on == 0 && o.inc == 0 && !o.hr)
-         then some "C05: transport closed while requests were still in flight" else none)
-    <|> (if o.done && !(o.oc.isEmpty && o.on == 0 && o.inc == 0 && !o.hr) then some "C05: connection done while not idle" else none)
-    <|> ((m.reqs.zipIdx 0).findSome? fun (q, r) =>
-      if q.a2AfterShutdown && o.parkedL.contains s!"H:r{r}" then some s!"C05: r{r} was dispatched although it arrived after shutdown began" else none)
-  -- mark newly started handlers
-  let m := o.parkedL.foldl (fun m lbl =>
-    if lbl.startsWith "H:r" then
-      match (lbl.drop 3).toString.toNat? with
-      | some j => modR m j fun q => { q with started := true }
-      | none => m
-    else m) m
-  ({ m with prev := o }, viol)
-
-/-- End of a case: everything must have terminated (C01: no caller blocked after termination; C05:
-Close and Wait return, nothing left parked); every accepted call got a response attempt (C02). -/
-def monEnd (m : Mon) (impl : String) : Option String :=
-  if impl != "clean" then
-    some ("C05: shutdown did not complete (" ++ impl ++ "): a caller, Close or Wait is still blocked or a goroutine is left parked after every handler returned, every write returned and the reader failed")
-  else
-    (m.reqs.zipIdx 0).findSome? fun (q, r) =>
-      if !q.isNotif && !q.isCancel && q.w1count == 0 then
-        if q.dup then some s!"C02: call r{r} whose id was already in flight was dropped without any response"
-        else some s!"C02: call r{r} never had a response attempted"
-      else none
+def Clause.text : Clause → String
+  | .c01Twice n r r' => s!"C01: call c{n} completed twice (result changed from {rtokStr r} to {rtokStr r'})"
+  | .c01Lost n => s!"C01: completed call c{n} lost its result"
+  | .c01Foreign n pl => s!"C01: call c{n} completed with payload {pl} that was never sent for its id"
+  | .c01Unparsable n r => s!"C01: unparsable result c{n}:{rtokStr r}"
+  | .c01Panic n => s!"C01: call c{n} panicked (retire called twice / completed twice)"
+  | .c01Blocked n => s!"C01: call c{n} is still blocked in Await although the connection has terminated (done closed)"
+  | .c01Late n r => s!"C01: call c{n} started after termination ended with {rtokStr r}, not with a closed-connection error"
+  | .c01RegAfterRx oc => s!"C01: call(s) {",".intercalate (oc.map fun n => s!"c{n}")} are registered although the reader has failed: nothing can complete them any more (a call started after the connection broke must fail at once)"
+  | .c02Twice r => s!"C02: request r{r} answered more than once"
+  | .c02NotifAnswered r => s!"C02: notification r{r} received a response"
+  | .c03BeforeSync j i => s!"C03: handler of r{j} started before the synchronous handler of earlier r{i} finished"
+  | .c03LaterFirst i j => s!"C03: handler of later r{i} was started before earlier r{j}"
+  | .c04ReadCause r => s!"C04: r{r} cancelled with a read error although the reader is alive"
+  | .c05WriteCause r => s!"C05: handler context of r{r} cancelled as 'server closing' although no transport write ever failed (graceful Close must let running handlers finish)"
+  | .c04Unrelated r => s!"C04: r{r} cancelled although no cancellation for its id was processed and it has not finished"
+  | .c04NotCancelled id r => s!"C04: Cancel({id}) did not cancel the handler context of r{r}"
+  | .c04CtxStuck n => s!"C04: cancelling the context of c{n} did not make the call return"
+  | .c05TcTwice => "C05: transport closed more than once"
+  | .c05OdTwice => "C05: onDone ran more than once"
+  | .c05ClosedBusy => "C05: transport closed while requests were still in flight"
+  | .c05DoneBusy => "C05: connection done while not idle"
+  | .c05LateDispatch r => s!"C05: r{r} was dispatched although it arrived after shutdown began"
+  | .c05Stuck impl => "C05: shutdown did not complete (" ++ impl ++ "): a caller, Close or Wait is still blocked or a goroutine is left parked after every handler returned, every write returned and the reader failed"
+  | .c02Dropped r => s!"C02: call r{r} whose id was already in flight was dropped without any response"
+  | .c02NoAttempt r => s!"C02: call r{r} never had a response attempted"
 
 structure DState where
   st : Option St := some {}
   mon : Mon := {}
+
+/-- Run-time self-check of the string layer: the model's own observation text must parse back to
+the typed observation the theorems talk about. -/
+def selfCheck (s : St) : Option String :=
+  if s.panicked then none
+  else if parseObs (observe s) == some (obsOf s) then none
+  else some ("LIBDISC render/parse: the model's observation text does not parse back to obsOf: " ++ observe s)
 
 def engine : Engine DState where
   init := {}
   step d toks impl :=
     match toks with
     | ["reset"] => ({}, { model := "ok" })
+    -- the harness announces that the peer's wire ids are offset by a constant (ids beyond 2^53); the model
+    -- and all records use the logical ids
+    | ["idbase", _] => (d, { model := "ok" })
     | ["end"] =>
       let model := match d.st with
         | none => "model-disabled"
         | some s => if allFinished s then "clean" else "model-stuck"
-      (d, { model := model, violated := monEnd d.mon impl })
+      (d, { model := model, violated := (monEndT d.mon (if impl == "clean" then none else some impl)).map Clause.text })
     | "sess" :: _ =>
       -- stream `sess` (two real sessions, zz_verif_sesslevel_test.go): the session-level monitors of
       -- C01–C05 are evaluated by the Go harness; the model's observation of every case is "clean"
@@ -421,22 +198,17 @@ def engine : Engine DState where
       | none => (d, { model := "bad-op" })
       | some l =>
         let (mon', viol) := match parseObs impl with
-          | some o => monStep d.mon toks o
+          | some o => let (m', c) := monStepT d.mon l o; (m', c.map Clause.text)
           | none => (d.mon, some ("unparsable observation: " ++ impl))
         match d.st with
         | none => ({ d with mon := mon' }, { model := "disabled", violated := viol })
         | some s =>
           -- the harness names a detached cancel notification by its call (x<n>); the model by creation index
-          let fixW : Who → Who := fun w => match w with
-            | .cnotif n => .cnotif ((s.cnotifs.findIdx? (fun nf => nf.cancelFor == some n)).getD s.cnotifs.length)
-            | w => w
-          let l := match l with
-            | .n1 w => .n1 (fixW w) | .n2 w => .n2 (fixW w) | .w1 w => .w1 (fixW w) | .w2 w => .w2 (fixW w)
-            | .wret w o => .wret (fixW w) o
-            | l => l
+          -- (the monitors do not look at that subject: `evOf_relabel_fixCnotif` in Bridge.lean)
+          let l := l.relabel (fixCnotif s)
           match step s l with
           | none => ({ st := none, mon := mon' }, { model := "disabled", violated := viol })
-          | some s' => ({ st := some s', mon := mon' }, { model := observe s', violated := viol })
+          | some s' => ({ st := some s', mon := mon' }, { model := observe s', violated := viol <|> selfCheck s' })
 
 end Conn
 
